@@ -3,6 +3,7 @@ package c12
 import (
 	"bytes"
 	"fmt"
+	"runtime/debug"
 
 	protoMetricsV1 "github.com/lindb/common/proto/gen/v1/linmetrics"
 
@@ -25,9 +26,45 @@ type routed struct {
 // NewShardGroupIterator(numOfShards) (jump hash of the tags hash; what databaseChannel.Write calls) ->
 // per shard the family iterator -> the bytes BrokerRow.WriteTo hands to the family channel.
 func routeBatch(ms []*protoMetricsV1.Metric, numOfShards int, interval timeutil.Interval) ([]routed, error) {
+	// not from the pool: the rows of the request are the only rows the batch ever held
+	return routeBatchIn(&metric.BrokerBatchRows{}, ms, numOfShards, interval)
+}
+
+// poolUse says what the pool handed out for one request.
+type poolUse struct {
+	backing int // rows the batch object held before (0: a batch that never held a row)
+	rows    int // rows of this request
+}
+
+// routeBatchPooled is routeBatch with the batch object of the ingestion handlers: taken from the process-wide
+// pool (metric.NewBrokerBatchRows: the previous occupant's rows stay in the backing slice behind the live
+// rows), routed, handed to the family writers as bytes, and released to the pool again (what
+// ChannelManager.Write's caller does when the write returns).
+func routeBatchPooled(ms []*protoMetricsV1.Metric, numOfShards int, interval timeutil.Interval) ([]routed, poolUse, error) {
+	batch := metric.NewBrokerBatchRows()
+	use := poolUse{backing: cap(batch.Rows()), rows: len(ms)}
+	defer batch.Release()
+	out, err := routeBatchIn(batch, ms, numOfShards, interval)
+	return out, use, err
+}
+
+// isolatePool makes the pool a function of the case: whether sync.Pool hands a released batch out again depends
+// on the garbage collector, so the collector is off while the requests of one layout are written (a released
+// batch is then certainly the next one handed out on this goroutine), and the pool is emptied first so that
+// nothing leaks in from an earlier case. Correctness on the unchanged tree does not depend on either.
+func isolatePool() (restore func()) {
+	old := debug.SetGCPercent(-1)
+	for i := 0; i < 1000; i++ {
+		b := metric.NewBrokerBatchRows()
+		if cap(b.Rows()) == 0 { // a batch that never held a row: the pool is empty now
+			break
+		}
+	}
+	return func() { debug.SetGCPercent(old) }
+}
+
+func routeBatchIn(batch *metric.BrokerBatchRows, ms []*protoMetricsV1.Metric, numOfShards int, interval timeutil.Interval) ([]routed, error) {
 	conv := metric.NewProtoConverter(models.NewDefaultLimits())
-	// not from the pool: a pooled batch may carry rows of an earlier case
-	batch := &metric.BrokerBatchRows{}
 	for _, m := range ms {
 		m := m
 		if err := batch.TryAppend(func(row *metric.BrokerRow) error { return conv.ConvertTo(m, row) }); err != nil {
